@@ -65,6 +65,9 @@ def mk(op, *args):
     p = _first_poison(*args)
     if p is not None:
         return p
+    for a in args:
+        if isinstance(a, tuple) and a and a[0] == "cx":
+            return ("poison", "complex value in a real-only operation %s" % op)
     return (op,) + tuple(args)
 
 
@@ -72,7 +75,73 @@ def mkf(kind, sym, args):
     p = _first_poison(*args)
     if p is not None:
         return p
+    for a in args:
+        if a[0] == "cx":
+            return ("poison", "complex argument of %s" % sym)
     return (kind, sym, list(args))
+
+
+# ---- complex values of the front-end: ("cx", re_ir, im_ir); never reach the emitters ----------------
+def is_cx(a):
+    return a[0] == "cx"
+
+
+def cx(a):
+    return a if is_cx(a) else ("cx", a, ("c", Fraction(0)))
+
+
+def _is0(a):
+    return a[0] == "c" and a[1] == 0
+
+
+def s_add(a, b):
+    return b if _is0(a) else a if _is0(b) else mk("+", a, b)
+
+
+def s_sub(a, b):
+    return a if _is0(b) else mk("neg", b) if _is0(a) else mk("-", a, b)
+
+
+def s_mul(a, b):
+    return ("c", Fraction(0)) if (_is0(a) or _is0(b)) else mk("*", a, b)
+
+
+def c_arith(sym, a, b):
+    """complex (+ - *) and division by a real; a or b is a cx node."""
+    if sym == "/" and not is_cx(b):
+        a = cx(a)
+        return ("cx", mk("/", a[1], b), ("c", Fraction(0)) if _is0(a[2]) else mk("/", a[2], b))
+    if sym == "/":
+        return ("poison", "division by a complex value")
+    a, b = cx(a), cx(b)
+    if sym == "+":
+        return ("cx", s_add(a[1], b[1]), s_add(a[2], b[2]))
+    if sym == "-":
+        return ("cx", s_sub(a[1], b[1]), s_sub(a[2], b[2]))
+    return ("cx", s_sub(s_mul(a[1], b[1]), s_mul(a[2], b[2])), s_add(s_mul(a[1], b[2]), s_mul(a[2], b[1])))
+
+
+def c_conj(a):
+    a = cx(a)
+    return ("cx", a[1], ("c", Fraction(0)) if _is0(a[2]) else mk("neg", a[2]))
+
+
+def c_real(a):
+    return a[1] if is_cx(a) else a
+
+
+def c_imag(a):
+    return a[2] if is_cx(a) else ("c", Fraction(0))
+
+
+def vdot(a, b):
+    """conj(a) * b per pixel (the sum over pixels is the caller's: energies are sums of per-pixel terms)."""
+    p = _first_poison(a, b)
+    if p is not None:
+        return p
+    if is_cx(a) or is_cx(b):
+        return c_arith("*", c_conj(a), b)
+    return mk("*", a, b)
 
 
 COQ_FUN = {"exp": "exp", "ln": "ln", "sqrt": "sqrt", "tanh": "tanh", "atan": "atan", "Rabs": "Rabs",
@@ -352,6 +421,8 @@ class Run:
                 a = self.expr(e.operand, env)
                 if a[0] == "c":
                     return ("c", -a[1])
+                if a[0] == "cx":
+                    return c_arith("-", ("c", Fraction(0)), a)
                 return mk("neg", a)
             if isinstance(e.op, ast.UAdd):
                 return self.expr(e.operand, env)
@@ -428,6 +499,8 @@ class Run:
             if sym == "+" and a[0] == "tuple" and b[0] == "tuple":
                 return ("tuple", a[1] + b[1])        # keyed operator sum / tuple concatenation
             return ("poison", "arithmetic on a tuple")
+        if a[0] == "cx" or b[0] == "cx":
+            return c_arith(sym, a, b)
         return (sym, a, b)
 
     def call(self, e, env):
@@ -454,6 +527,9 @@ class Run:
                 fake = ast.Call(func=inner.args[0], args=list(inner.args[1:]) + list(e.args),
                                 keywords=list(inner.keywords) + list(e.keywords))
                 return self.call(ast.copy_location(fake, e), env)
+            if ifn == "type" and len(e.args) == 1 and not e.keywords:
+                # type(primals)(res): re-wrapping of a result in the container type of the input
+                return self.expr(e.args[0], env)
         if isinstance(e.func, ast.Lambda):
             return self.apply_lambda(e.func, e.args, env)
         if fn is not None and fn in self.cfg.funcs:
@@ -664,8 +740,8 @@ class Def:
     def __init__(self, name, params, ir, origin="", quote="", guards=(), flags=None):
         self.name, self.params, self.ir = name, list(params), ir
         self.origin, self.quote, self.guards, self.flags = origin, quote, list(guards), dict(flags or {})
-        if ir[0] == "tuple":
-            raise TranslationError("%s: a tuple reached a scalar definition" % name)
+        if ir[0] in ("tuple", "cx"):
+            raise TranslationError("%s: a %s reached a scalar definition" % (name, ir[0]))
         if ir[0] == "poison":
             raise TranslationError("%s (%s): untranslatable: %s" % (name, origin, ir[1]))
         # force any nested poison to surface
@@ -694,6 +770,9 @@ def translate(src, qual, cfg, inputs, outputs, bound=(), this="return"):
     ret = run.body(fd.body, env, bound=set(bound))
     defs = []
     for name, params, sel in outputs:
+        part = None
+        if sel.endswith("#re") or sel.endswith("#im"):
+            sel, part = sel[:-3], sel[-2:]
         if sel == "return" or sel.startswith("return."):
             if ret is None:
                 raise TranslationError("%s: no return on the selected path" % run.src_name)
@@ -710,6 +789,12 @@ def translate(src, qual, cfg, inputs, outputs, bound=(), this="return"):
             if sel not in env or isinstance(env[sel], Alias):
                 raise TranslationError("%s: variable %s is not assigned on the selected path" % (run.src_name, sel))
             ir = env[sel]
+        if part is not None:
+            ir = c_real(ir) if part == "re" else c_imag(ir)
+        elif ir[0] == "cx":
+            if not _is0(ir[2]):
+                raise TranslationError("%s: output %s is complex; select .re or .im" % (run.src_name, name))
+            ir = ir[1]
         defs.append(Def(name, params, ir, origin="%s:%d %s" % (src.rel, fd.lineno, qual),
                         quote=src.segment(fd), guards=run.guards, flags=run.used_flags))
     return defs
